@@ -264,6 +264,7 @@ PBT_PROPERTY(sort_big) {
     // a tiny remainder after the RadixSteps ends in insertion sort of whatever bucket is current: only affordable when
     // buckets shrink geometrically
     c.mem_safe_only = !geometric;
+    c.geo_k = sh.k;
     log_case(c, sh, "expanded");
     run_case(c);
 }
